@@ -492,7 +492,7 @@ func ruleFlagWrap(r *Run) {
 				return true
 			})
 		}
-		r.Floor("C4d", "reads of RealtimeHandler.FeatureFlags", uses, 11)
+		r.Floor("C4d", "reads of RealtimeHandler.FeatureFlags", uses, 10) // one per flagged class; two sites of one class may be merged into a helper
 	}
 	// values of type FeatureFlag are indexed only inside package featureflag
 	ffT := r.P.LookupType(pkgFF, "FeatureFlag")
